@@ -410,8 +410,8 @@ def run_job(job):
     out["trace"] = tr
     res = solver.result
     out["result"] = None if res is None else {
-        "s": ratio(res[0]), "is_hof0_score": res[0] is solver.hof[0][0] or res[0] == solver.hof[0][0],
-        "is_hof0_circuit": res[1] is solver.hof[0][1], "fp": fingerprint(res[1])}
+        "s": ratio(res[0]), "is_hof0_score": bool(res[0] is solver.hof[0][0] or res[0] == solver.hof[0][0]),
+        "is_hof0_circuit": bool(res[1] is solver.hof[0][1]), "fp": fingerprint(res[1])}
     with RngGuard():
         out["final_hof"] = [
             {"s": ratio(s), "fp": fingerprint(c), "n": None if c is None else len(c.dag.nodes),
